@@ -79,6 +79,22 @@ class Effects:
         return False
 
     def _returns_fresh(self, q, depth):
+        if not hasattr(self, "_rf"):
+            self._rf, self._rf_busy = {}, set()
+        if q in self._rf:
+            return self._rf[q]
+        if q in self._rf_busy:
+            return False  # recursive producer: assume it may hand out shared objects
+        self._rf_busy.add(q)
+        try:
+            r = self._returns_fresh_1(q, depth)
+        finally:
+            self._rf_busy.discard(q)
+        if not self._rf_busy:
+            self._rf[q] = r
+        return r
+
+    def _returns_fresh_1(self, q, depth):
         g = self.m.funcs[q]
         rets = [n for n in self.m.walk_own(g.node) if isinstance(n, ast.Return) and n.value is not None]
         if not rets:
@@ -145,12 +161,19 @@ class Effects:
                 if kind == "iter":
                     out |= self._iter_roots(f, v, _seen)
                     continue
+                if kind == "elem":
+                    call, idx = v
+                    if self._elem_fresh(f, call, idx):
+                        out.add("fresh")
+                    else:
+                        out |= self.expr_roots(f, call, _seen)
+                    continue
                 out |= self.expr_roots(f, v, _seen)
         if not bound and not out:
             # enclosing function's local, module global or builtin
             if f.parent:
                 out |= self.local_roots(self.m.funcs[f.parent], name, _seen)
-            elif name in self.m.consts.get(f.rel, {}) or name in self.m.imports.get(f.rel, {}):
+            elif name in self.m.consts.get(f.rel, {}) or name in self.m.imports.get(f.rel, {}) or f"{f.rel}:{name}" in self.m.classes or f"{f.rel}:{name}" in self.m.funcs:
                 out.add(f"global:{name}")
             else:
                 out.add("unknown")
@@ -160,6 +183,33 @@ class Effects:
             out.discard("fresh")
         self._roots[key] = out
         return out
+
+    def _elem_fresh(self, f, call, idx):
+        """Is element idx of the tuple returned by this call a fresh object?"""
+        k, tg = self.r.resolve_call(f, call)
+        if k not in ("nested", "module", "import", "typed") or not tg:
+            return False
+        if not hasattr(self, "_ef_busy"):
+            self._ef_busy = set()
+        for q in tg:
+            if (q, idx) in self._ef_busy:
+                continue  # recursive producer: decided by its other return sources
+            self._ef_busy.add((q, idx))
+            try:
+                g = self.m.funcs[q]
+                for r in (n for n in self.m.walk_own(g.node) if isinstance(n, ast.Return) and n.value is not None):
+                    v = r.value
+                    if not (isinstance(v, ast.Tuple) and idx < len(v.elts)):
+                        return False
+                    x = v.elts[idx]
+                    if isinstance(x, ast.Name):
+                        if self.local_roots(g, x.id) != {"fresh"}:
+                            return False
+                    elif not self._is_fresh_value(g, x):
+                        return False
+            finally:
+                self._ef_busy.discard((q, idx))
+        return True
 
     def _is_static(self, f):
         return any(isinstance(d, ast.Name) and d.id in ("staticmethod",) for d in f.node.decorator_list)
@@ -186,6 +236,9 @@ class Effects:
                 for a, b in zip(t.elts, value.elts):
                     out += self._match_target(a, name, b)
                 return out
+            names = [x.id if isinstance(x, ast.Name) else None for x in t.elts]
+            if name in names and isinstance(value, ast.Call):
+                return [("elem", (value, names.index(name)))]
             if name in self._names_in_target(t):
                 return [("val", value)]
         return []
@@ -368,41 +421,59 @@ class Effects:
 
     # ------------------------------------------------------------ summaries
     def summaries(self, by_name=True, max_iter=12):
-        """qual -> dict key->Write : writes expressed on the function's own
-        roots (self / params / globals / unknown), callees substituted."""
+        """qual -> {(root, path, kind): Write}: writes expressed on the function's
+        own roots (self / params / globals / unknown), callees substituted
+        (worklist propagation over the reversed call graph; one representative
+        origin is kept per (root, path, kind))."""
         if self._summary is not None and self._summary[0] == by_name:
             return self._summary[1]
+        from collections import deque
+
         summ = {}
+        rev = defaultdict(list)  # callee qual -> [(caller func, call, kind)]
+        for q, f in self.m.funcs.items():
+            for call, kind, targets in self.r.callees(f):
+                if kind in ("external", "unknown"):
+                    continue
+                if kind == "by_name" and not by_name:
+                    continue
+                for tq in targets:
+                    rev[tq].append((f, call, kind))
+        work = deque()
         for q, f in self.m.funcs.items():
             d = {}
             for w in self.direct(f):
                 if w.root == "self" and f.cls in self.transient:
                     continue
-                d[(w.root, w.path, w.kind, w.func, id(w.node))] = w
+                k = (w.root, w.path, w.kind)
+                if k not in d:
+                    d[k] = w
+                    work.append((q, k))
             summ[q] = d
-        for _ in range(max_iter):
-            changed = False
-            for q, f in self.m.funcs.items():
-                d = summ[q]
-                for call, kind, targets in self.r.callees(f):
-                    if kind in ("external", "unknown"):
+        self._subst_cache = {}
+        steps = 0
+        while work:
+            q, k = work.popleft()
+            w = summ[q][k]
+            g = self.m.funcs[q]
+            for f, call, kind in rev.get(q, ()):
+                steps += 1
+                for nr, npath in self._subst(f, call, kind, g, w):
+                    if nr == "fresh":
                         continue
-                    if kind == "by_name" and not by_name:
+                    if nr == "self" and f.cls in self.transient:
                         continue
-                    for tq in targets:
-                        g = self.m.funcs[tq]
-                        for w in list(summ.get(tq, {}).values()):
-                            for nr, npath in self._subst(f, call, kind, g, w):
-                                if nr == "fresh":
-                                    continue
-                                if nr == "self" and f.cls in self.transient:
-                                    continue
-                                key = (nr, npath, w.kind, w.func, id(w.node))
-                                if key not in d:
-                                    d[key] = Write(w.func, w.node, nr, npath, w.kind, ((f.qual, call.lineno),) + w.via[:5])
-                                    changed = True
-            if not changed:
-                break
+                    if nr == "self" and not npath:
+                        continue
+                    comps = npath.split(".") if npath else []
+                    if len(comps) > 3:
+                        # k-limiting: keep the first step and the field written
+                        npath = ".".join([comps[0], "*"] + comps[-1:])
+                    nk = (nr, npath, w.kind)
+                    d = summ[f.qual]
+                    if nk not in d and len(w.via) < 12:
+                        d[nk] = Write(w.func, w.node, nr, npath, w.kind, ((f.qual, call.lineno),) + w.via[:6])
+                        work.append((f.qual, nk))
         self._summary = (by_name, summ)
         return summ
 
@@ -443,6 +514,18 @@ class Effects:
         return False
 
     def _expr_subst(self, f, e, path):
+        ck = (f.qual, id(e))
+        base = self._es_cache.get(ck) if hasattr(self, "_es_cache") else None
+        if base is None:
+            if not hasattr(self, "_es_cache"):
+                self._es_cache = {}
+            base = self._expr_subst_base(f, e)
+            self._es_cache[ck] = base
+        roots, prefix = base
+        full = ".".join(x for x in (prefix, path) if x) if prefix is not None else path
+        return [(r, full) for r in roots]
+
+    def _expr_subst_base(self, f, e):
         chain = []
         x = e
         while isinstance(x, (ast.Attribute, ast.Subscript)):
@@ -450,16 +533,9 @@ class Effects:
                 chain.append(x.attr)
             x = x.value
         chain.reverse()
-        out = []
         if isinstance(x, ast.Name) and not self._is_fresh_value(f, e):
-            roots = self.local_roots(f, x.id)
-            full = ".".join(chain + ([path] if path else []))
-        else:
-            roots = self.expr_roots(f, e)
-            full = path
-        for r in roots:
-            out.append((r, full))
-        return out
+            return self.local_roots(f, x.id), ".".join(chain)
+        return self.expr_roots(f, e), None
 
     def _actual(self, call, kind, g: Func, pname):
         params = list(g.params)
